@@ -1574,6 +1574,20 @@ func (c *Ctx) RuleTableConst(rule string, g *ssa.Global) {
 									}
 								}
 							}
+							// handed to a helper of the module that only reads it (`digitText(hundreds, value, …)`)
+							if call, isCall := r.(*ssa.Call); isCall {
+								if callee := c.StaticCallee(&call.Call); callee != nil && inRepo(callee) && len(callee.Blocks) > 0 {
+									all := true
+									for ai, a := range call.Call.Args {
+										if a == ssa.Value(u) && (ai >= len(callee.Params) || !readsOnlyRef(callee.Params[ai], 0)) {
+											all = false
+										}
+									}
+									if all {
+										continue
+									}
+								}
+							}
 							c.addc("undecided", rule, fn, r.Pos(), "reference "+g.Name(), "the table "+g.Name()+" (a reference) is handed on ("+fmt.Sprintf("%T", r)+"): who writes through it is not followed", "")
 							bad = true
 						}
@@ -1716,4 +1730,36 @@ func storeThrough(ia *ssa.IndexAddr) bool {
 		}
 	}
 	return false
+}
+
+// readsOnlyRef: the map or slice v is only looked up, indexed for reading, ranged over, measured or compared.
+func readsOnlyRef(v ssa.Value, depth int) bool {
+	if v.Referrers() == nil {
+		return true
+	}
+	for _, r := range *v.Referrers() {
+		switch y := r.(type) {
+		case *ssa.Lookup, *ssa.Range, *ssa.DebugRef, *ssa.Index, *ssa.BinOp:
+		case *ssa.IndexAddr:
+			for _, rr := range *y.Referrers() {
+				if l, ok := rr.(*ssa.UnOp); !ok || l.Op != token.MUL {
+					if _, dbg := rr.(*ssa.DebugRef); !dbg {
+						return false
+					}
+				}
+			}
+		case *ssa.Call:
+			bi, ok := y.Call.Value.(*ssa.Builtin)
+			if !ok || (bi.Name() != "len" && bi.Name() != "cap") {
+				return false
+			}
+		case *ssa.Phi:
+			if depth > 3 || !readsOnlyRef(y, depth+1) {
+				return false
+			}
+		default:
+			return false
+		}
+	}
+	return true
 }
